@@ -34,10 +34,7 @@ func VerifC09_Store() {
 			return
 		}
 		verifrt.GetFaults = true
-	case 2: // database closed (e.g. by a concurrent shutdown)
-		if !disk {
-			return
-		}
+	case 2: // store closed (e.g. by a concurrent shutdown while a handshake still holds the entry)
 		st.Close()
 	case 3: // record value corrupted / truncated / replaced by a well-formed record of ANOTHER serial (bit flip inside the serial)
 		foreign := &pkix.RevokedCertificate{SerialNumber: serial("foreign")}
@@ -71,7 +68,12 @@ func VerifC09_Store() {
 		}
 	case 2:
 		verifrt.Reach("closed-db")
-		verifrt.Assert(lerr != nil, "closed database: lookup reports an error, never 'not revoked'")
+		if disk {
+			verifrt.Assert(lerr != nil, "closed database: lookup reports an error, never 'not revoked'")
+		} else {
+			// the memory backend may keep answering after Close - but only correctly
+			verifrt.Assert(lerr != nil || (status != nil && status.Revoked == isListed), "closed memory store: an error or the exact answer, never 'not revoked' for a listed certificate")
+		}
 	case 4:
 		verifrt.Reach("damaged-block")
 		verifrt.Assert(lerr != nil, "damaged table block: lookup reports an error, never 'not revoked' (the database must keep verifying block checksums)")
